@@ -120,7 +120,7 @@ pub fn campaigns(ctx: &Ctx) -> Stats {
     // ONE matrix used again - itself, a clone, or a reshaped VIEW of the same buffer under other dimensions - in a later
     // product next to batched or plain partners: a product must not depend on what the same buffer was multiplied as
     // before (packed or transposed copies remembered per buffer)
-    st.merge(ctx.run_indexed("reused-matrix-under-other-dimensions", ctx.tier.pick(40_000, 1_000_000), None, |i| {
+    st.merge(ctx.run_indexed("reused-matrix-under-other-dimensions", ctx.tier.pick(200_000, 1_000_000), None, |i| {
         let z = mix(i ^ 0xC05A ^ ctx.seed.wrapping_mul(0x9E3779B1));
         let (p, q) = (1 + (z % 4) as usize, 1 + ((z >> 2) % 4) as usize);
         let x = LeafSpec { dims: vec![p, q], vals: gen_vals(z, p * q, VKind::Small), tracked: (z >> 60) & 1 == 1 };
